@@ -63,6 +63,9 @@ pub enum PeerOp {
     /// (hostile) a data packet numbered `d` + 1 beyond the peer's own FIN — "after FIN" in the arrival orders C04
     /// quantifies over. Skipped while the peer has not sent a FIN.
     DataAfterFin { d: u8, len: u16 },
+    /// the peer retransmits its FIN (the acknowledgement was lost, say): same number, the peer's last cumulative ack.
+    /// Skipped while the peer has not sent an in-sequence FIN.
+    FinRetx,
     /// a Crafted packet whose encoding is then damaged: bytes overwritten, first-extension byte forced,
     /// junk appended, truncated
     Mangled { base: Box<PeerOp>, flips: Vec<(u16, u8)>, first_ext: Option<u8>, append: Vec<u8>, trunc: Option<u16> },
@@ -594,6 +597,16 @@ pub fn run(case: &SpCase, trace: bool) -> SpResult {
                         if *dseq == 0 {
                             peer.next_seq = peer.next_seq.wrapping_add(1);
                         }
+                        peer.send(p);
+                    }
+                    PeerOp::FinRetx => {
+                        let Some(seq) = peer.fin_seq else {
+                            res.skipped_data_ops += 1;
+                            settle().await;
+                            continue;
+                        };
+                        let mut p = peer.base(refparse::ST_FIN);
+                        p.seq = seq;
                         peer.send(p);
                     }
                     PeerOp::DataAfterFin { d, len } => {
